@@ -15,7 +15,7 @@ from vmon.libutil import monitored
 LEVEL = "exploration"
 SHARDS = {"quick": 8, "thorough": 16}
 MUST = ["recorder.rows", "recorder.pprint", "recorder.console", "describe.runs", "parse.runs", "parse.index_valid", "parse.index_out_of_range", "files.empty", "files.truncated",
-        "n.le10", "n.gt10"]
+        "n.le10", "n.gt10", "parse.beyond_max_items", "parse.with_display_options", "files.duplicate_packets", "flags.none", "flags.-q", "flags.--quiet"]
 RULE = ("case = (packet file of n packets, command, packet index); the recorded rows / pretty-printed object / console "
         "messages are compared with the expectation computed from the packet list: every row once in order for "
         "n<=10, else first five + one ellipsis row + last five; parse --packet i shows packet i for 0<=i<n and an "
@@ -35,6 +35,7 @@ class Budget(Exception):
 class Rec:
     def __init__(self):
         self.rows, self.pprinted, self.printed = [], [], []
+        self.suppressed = 0
 
 
 def install(rec_holder):
@@ -60,6 +61,8 @@ def install(rec_holder):
 
     def cprint(*a, **kw):
         rec_holder["rec"].printed.append(a)
+        if getattr(cli.console, "quiet", False):
+            rec_holder["rec"].suppressed += 1      # rich prints nothing while Console.quiet is set
         return orig_print(*a, **kw)
     cli.console.print = cprint
     orig_gen = packets.ccsds_generator
@@ -143,6 +146,8 @@ def _run(ctx):
             pos += n
         return out
 
+    flag_cycle = [["--quiet"], ["-q"], [], ["--log-level", "ERROR"], ["--quiet"], []]
+
     def invoke(args, data):
         path = os.path.join(scratch, "pkts.bin")
         with open(path, "wb") as f:
@@ -150,7 +155,16 @@ def _run(ctx):
         holder["rec"] = Rec()
         holder["budget"] = len(data) // 7 + 2
         full = [a if a != "FILE" else path for a in args]
-        res = monitored(runner.invoke, cli.spp, ["--quiet"] + full)
+        # the global logging flags must not change what the commands show; they are rotated so that sequences such as
+        # "-q" followed by a run without it occur in one process
+        flags = flag_cycle[ctx.counters["evaluations"] % len(flag_cycle)]
+        ctx.count("flags." + (flags[0] if flags else "none"))
+        res = monitored(runner.invoke, cli.spp, flags + full)
+        if holder["rec"].suppressed:
+            ctx.violation(f"output-suppressed/{args[0]}/flags={flags[0] if flags else 'none'}",
+                          f"the console was silenced (Console.quiet) while `{args[0]}` printed its result; global flags {flags}", {"args": args[:1], "flags": flags})
+        out = getattr(res.value, "output", "") or ""
+        holder["output"] = out
         ctx.count("recorder.rows", len(holder["rec"].rows))
         ctx.count("recorder.pprint", len(holder["rec"].pprinted))
         ctx.count("recorder.console", len(holder["rec"].printed))
@@ -177,9 +191,11 @@ def _run(ctx):
             ctx.violation(f"describe/crash/{type(r.exception).__name__}/n={nclass(n)}/{fclass}", f"exit {r.exit_code}, exception {r.exception!r}", wit)
             return
         rows = [header_row(p) for p in pk]
+        if n == 0 and not holder.get("output", "").strip():
+            ctx.violation("describe/empty/no-message-in-output", "nothing at all reached the command's output for a file without packets", wit)
         if n == 0:
             exp = []
-            if not any("No packets" in " ".join(map(str, a)) for a in rec.printed) and rec.rows:
+            if rec.rows:
                 ctx.violation("describe/empty/rows-for-no-packets", "rows were produced for a file without packets", wit)
         elif n <= 10:
             exp = rows
@@ -190,10 +206,10 @@ def _run(ctx):
             ctx.violation(f"describe/rows/{'duplicated' if dup else 'wrong'}/n={nclass(n)}",
                           f"{len(rec.rows)} rows recorded, expected {len(exp)} (n={n})", dict(wit, got=rec.rows[:14], expected=exp[:14]))
 
-    def parse(data, idx, fclass):
+    def parse(data, idx, fclass, extra=()):
         pk = frames(data)
         n = len(pk)
-        args = ["parse", "FILE", defpath] + ([] if idx is None else ["--packet", str(idx)])
+        args = ["parse", "FILE", defpath] + ([] if idx is None else ["--packet", str(idx)]) + list(extra)
         rec, res = invoke(args, data)
         ctx.count("evaluations")
         ctx.count("parse.runs")
@@ -201,7 +217,7 @@ def _run(ctx):
         if idx is not None:
             ctx.count("parse.index_valid" if idx < n else "parse.index_out_of_range")
         ctx.sig("parse", nclass(n), iclass, fclass)
-        wit = {"command": "parse", "n": n, "index": idx, "file_class": fclass, "file_len": len(data)}
+        wit = {"command": "parse", "n": n, "index": idx, "file_class": fclass, "file_len": len(data), "extra_options": list(extra)}
         r = res.value
         if res.exc is not None or r is None:
             ctx.violation(f"parse/harness-exception/{type(res.exc).__name__}", repr(res.exc), wit)
@@ -225,7 +241,8 @@ def _run(ctx):
             if len(rec.pprinted) != 1 or not same_packet(rec.pprinted[0], pk[idx]):
                 ctx.violation("parse/index/wrong-packet", f"--packet {idx} did not show packet {idx}", wit)
         else:
-            said = any("out of range" in " ".join(map(str, a)) for a in rec.printed)
+            # wording is not part of the property: a message = something printed through the console that reaches the output
+            said = bool(rec.printed) and bool(holder.get("output", "").strip())
             if rec.pprinted or not said:
                 ctx.violation(f"parse/index/no-out-of-range-message/index={iclass}", f"--packet {idx} with {n} packets: printed {rec.printed!r}, pprinted {len(rec.pprinted)} objects", wit)
 
@@ -248,6 +265,34 @@ def _run(ctx):
                     parse(data, idx, "intact" if n else "empty")
                     if n == 0:
                         ctx.count("files.empty")
+        # display-limit options must not interfere with --packet: files beyond the default --max-items (20)
+        for n in (21, 22, 25, 30):
+            pk = mkpackets(n)
+            data = b"".join(pk)
+            for idx in (0, 19, 20, 21, n - 1, n, n + 1):
+                item += 1
+                if ctx.mine(item):
+                    parse(data, idx, "intact")
+                    ctx.count("parse.beyond_max_items")
+            for extra, idxs in ((("--max-items", "3"), (0, 2, 3, 5, n - 1, n)), (("--max-items", "1", "--max-string", "2"), (1, n - 1)), (("--max-string", "1"), (0, n))):
+                for idx in idxs:
+                    item += 1
+                    if ctx.mine(item):
+                        parse(data, idx, "intact", extra)
+                        ctx.count("parse.with_display_options")
+        # files with byte-identical packets (idle / replayed packets) in head and tail
+        for n in (2, 4, 7, 10, 11, 13, 24):
+            uniq = mkpackets(3)
+            pk = [uniq[i % 2] if i % 3 else uniq[2] for i in range(n)]
+            if n > 5:
+                pk[-1] = pk[0]
+                pk[-3] = pk[1]
+            data = b"".join(pk)
+            item += 1
+            if ctx.mine(item):
+                describe(data, "duplicates")
+                parse(data, n - 1, "duplicates")
+                ctx.count("files.duplicate_packets")
         # truncations of a 3-packet file at every offset; and an 11-packet file cut inside the last packet
         pk = mkpackets(3)
         data = b"".join(pk)
